@@ -411,7 +411,7 @@ Proof.
     fold tailv.
     assert (Hleb : Nat.leb (length tailv) (length (head ++ rb)) = true).
     { apply Nat.leb_le. rewrite app_length. lia. }
-    rewrite Hleb. f_equal. rewrite <- app_assoc, Htail. rewrite Hrneq. reflexivity.
+    rewrite Hleb. f_equal. rewrite Htail, Hrneq. reflexivity.
   - unfold Truthful.
     assert (Hde : (length (head ++ rb) - length tailv)%nat = length (head ++ mid ++ r1)).
     { rewrite !app_length. lia. }
